@@ -68,6 +68,7 @@ type Expr struct {
 //	K = "complete" : Complete()
 //	K = "forget" / "changed" : Forget("Text") / Changed("Text")
 //	K = "mut"      : side-effecting fact method call statement  Call   (Call.K == "call")
+//	K = "eval"     : a side-effect-free fact method call used as a statement (its value is discarded)  E
 //	K = "log"      : Log("Text")
 type Action struct {
 	K    string `json:"k"`
@@ -205,7 +206,7 @@ func PrintAction(a *Action) string {
 		return "Forget(" + quote(a.Text) + ")"
 	case "changed":
 		return "Changed(" + quote(a.Text) + ")"
-	case "mut":
+	case "mut", "eval":
 		return PrintExpr(a.E)
 	case "log":
 		return "Log(" + quote(a.Text) + ")"
